@@ -25,8 +25,10 @@ except Exception:  # pragma: no cover
 class Namespace:
     """Attribute bag handed to clauses as ``a``."""
 
-    def __init__(self, **kw):
-        self.__dict__.update(kw)
+    def __init__(_ns_self, _d=None, **kw):
+        if _d:
+            _ns_self.__dict__.update(_d)
+        _ns_self.__dict__.update(kw)
 
     def __getattr__(self, k):  # only called when missing
         raise BindingError(k)
@@ -160,6 +162,8 @@ class SymOps:
     def is_slice(self, view, of, lo, n):
         """``view`` is the slice ``of[lo:lo+n]`` (a view on the same rows, no copy)."""
         if view.base != of.base:
+            if getattr(self, "assuming", False):
+                raise BindingError(f"is_slice over different arrays ({view.base}, {of.base}) in an assumed clause")
             return z3.BoolVal(False)
         return z3.And(view.n == n, z3.Or(n == 0, view.lo == of.lo + lo))
 
@@ -169,6 +173,55 @@ class SymOps:
         if isinstance(x, str):
             return z3.BoolVal(x == lit)
         return x == strv(lit)
+
+    def call(self, name, *args, sort="V"):
+        """Pure external function, uninterpreted: the same symbol the engine uses for an abstracted call."""
+        from .engine import V, Opq
+        vs = [self.v(x) for x in args]
+        rs = {"V": V, "int": z3.IntSort(), "bool": z3.BoolSort()}[sort]
+        return z3.Function("fn:" + name, *([V] * len(vs) + [rs]))(*vs)
+
+    def v(self, x):
+        """Lift a clause-level value into the universal sort."""
+        return self.eng.to_v(x) if not (isinstance(x, z3.ExprRef) and x.sort().name() == "V") else x
+
+    def is_instance(self, x, key):
+        """isinstance(x, <classes named in key, '|'-separated>)"""
+        from .engine import V
+        if isinstance(x, z3.ExprRef) and z3.is_int(x):
+            return z3.BoolVal(any(n in ("int", "np.integer") for n in key.split("+")))
+        if isinstance(x, int) and not isinstance(x, bool):
+            return z3.BoolVal(any(n in ("int", "np.integer") for n in key.split("+")))
+        return z3.Function("isinstance:" + key, V, z3.BoolSort())(self.v(x))
+
+    def to_int(self, x):
+        from .engine import v2int
+        if isinstance(x, int):
+            return z3.IntVal(x)
+        if z3.is_int(x):
+            return x
+        return v2int(x)
+
+    def arr_dtype(self, view):
+        from .engine import V
+        return z3.Function("dtype_of", V, V)(z3.Const("arr:" + view.base, V))
+
+    def is_none(self, x):
+        from .engine import NONE, PNONE
+        if x is PNONE or x is None:
+            return z3.BoolVal(True)
+        if isinstance(x, z3.ExprRef) and x.sort().name() == "V":
+            return x == NONE
+        return z3.BoolVal(False)
+
+    def truthy(self, x):
+        return self.eng.truth(x if not (isinstance(x, z3.ExprRef) and x.sort().name() == "V") else __import__("pyvc.engine", fromlist=["Opq"]).Opq(x))
+
+    def eq(self, x, y):
+        """Python == on clause-level values of possibly different representation."""
+        from .engine import Opq
+        wrap = lambda t: Opq(t) if isinstance(t, z3.ExprRef) and t.sort().name() == "V" else t
+        return self.eng.equal(wrap(x), wrap(y))
 
     def inverse_perm(self, perm):
         """Ghost inverse of a sorting permutation produced by the argsort model / contract."""
@@ -242,6 +295,47 @@ class ConcOps:
 
     def eq_str(self, x, lit):
         return x == lit
+
+    def call(self, name, *args, sort="V"):
+        import importlib
+        parts = name.split(".")
+        obj = importlib.import_module(parts[0])
+        for p in parts[1:]:
+            obj = getattr(obj, p)
+        return obj(*[getattr(a, "arr", a) for a in args])
+
+    def v(self, x):
+        return x
+
+    def is_instance(self, x, key):
+        import numpy as np
+        table = {"int": int, "np.integer": np.integer, "np.ndarray": np.ndarray, "dict": dict, "strax.Chunk": None}
+        classes = []
+        for n in key.split("+"):
+            if n == "strax.Chunk":
+                import strax
+                classes.append(strax.Chunk)
+            else:
+                classes.append(table[n])
+        x = getattr(x, "arr", x)
+        if isinstance(x, bool) and int in classes and len(classes) <= 2:
+            return True
+        return isinstance(x, tuple(classes))
+
+    def to_int(self, x):
+        return int(x)
+
+    def arr_dtype(self, view):
+        return view.arr.dtype
+
+    def is_none(self, x):
+        return x is None
+
+    def truthy(self, x):
+        return bool(x)
+
+    def eq(self, x, y):
+        return x == y
 
     def inverse_perm(self, perm):
         import numpy as np
